@@ -464,10 +464,13 @@ Theorem C13_find_plain_decision_eq_lua : forall pat plain,
 Proof. exact use_plain_eq_lua. Qed.
 Print Assumptions C13_find_plain_decision_eq_lua.
 
-(* string.format never reaches undefined behaviour: on every conversion specification that scanformat + checkformat
-   accept and every integer or string argument the C function it calls is defined - no flag, precision or length
-   modifier that ISO C99 7.21.6.1 leaves undefined for the conversion ([c99_snprintf] is never None), for every format
-   string and argument list.  Together with C13_format_val_is_lua: string.format neither fabricates nor misbehaves. *)
+(* string.format never hands snprintf a DIRECTIVE that ISO C99 7.21.6.1 leaves undefined: on every conversion
+   specification that scanformat + checkformat accept and every integer or string argument, [c99_snprintf] is defined (no
+   flag, precision or length modifier undefined for the conversion), for every format string and argument list.
+   This is about the directive only.  Not covered: the writes into form[MAX_FORMAT] (at most 13 bytes by the shape
+   scanformat accepts: measured, not proved), the long double / float128 and %p call sites, and the read of fmt.data[#fmt]
+   as 0 (the terminator assumption).  The flag tables of the model are hand copies of the source (equal today, checked
+   by the format stream on every run). *)
 Theorem C13_format_never_unsafe : forall cfloat fmt args, nl_format cfloat fmt args <> Unsafe.
 Proof. exact format_never_unsafe. Qed.
 Print Assumptions C13_format_never_unsafe.
@@ -536,3 +539,15 @@ Theorem C13_format_never_truncated : forall cfloat, (forall form v, slen (cfloat
   forall fmt args, nl_format_b cfloat fmt args = nl_format cfloat fmt args.
 Proof. exact format_never_truncated. Qed.
 Print Assumptions C13_format_never_truncated.
+
+(* _needed companions of C13_format_never_truncated (which uses the scraped bounds through reflexivity): under the other
+   policy of each scraped flag the statement is false, with a witness *)
+Theorem C13_format_s_bound_needed : forall cfloat,
+  nl_item_b_pol cfloat false true [53; 115] (AStr (repeat 120 600)) = Unsafe /\
+  nl_item_b_pol cfloat true true [53; 115] (AStr (repeat 120 600)) = Val (repeat 120 600, []).
+Proof. exact format_s_bound_needed. Qed.
+Print Assumptions C13_format_s_bound_needed.
+
+Theorem C13_format_num_bound_needed : forall cfloat, nl_item_b_pol cfloat true false [100] (AInt 7) = Trap.
+Proof. exact format_num_bound_needed. Qed.
+Print Assumptions C13_format_num_bound_needed.
